@@ -161,6 +161,16 @@ pub fn run(ctx: &Ctx, st: &mut Stats) {
                 ev(st, Ty::Date, "DDD MON YYYY", &format!("{:03} {} {:04}", n, &MONTHS[m2 as usize - 1][..3], y), Err(()), "day-of-year-disagrees-with-month");
             }
             ev(st, Ty::Date, "DD DDD YYYY", &format!("{:02} {:03} {:04}", if d < 28 { d + 1 } else { d - 1 }, n, y), Err(()), "day-of-year-disagrees-with-day");
+            // two coordinated deviations: a day past the end of the previous month (or day 0 of the next) that would "roll"
+            // onto exactly this day-of-year - still not a date
+            if d <= 3 && m >= 2 {
+                let pm = m - 1;
+                let text = format!("{:04}-{:02}-{:02} {:03}", y, pm, dim(y, pm) + d, n);
+                ev(st, [Ty::Date, Ty::Ts, Ty::Ora][(n % 3) as usize], "YYYY-MM-DD DDD", &text, Err(()), "day-beyond-month-length-rolling-onto-the-day-of-year");
+            }
+            if d == dim(y, m) && m <= 11 {
+                ev(st, Ty::Date, "YYYY-MM-DD DDD", &format!("{:04}-{:02}-00 {:03}", y, m + 1, n), Err(()), "day-zero-rolling-onto-the-day-of-year");
+            }
         }
     });
     if ystride == 1 {
